@@ -18,6 +18,7 @@ import (
 	"log"
 	"os"
 	"runtime"
+	"runtime/debug"
 	"slices"
 	"strings"
 
@@ -634,7 +635,7 @@ func runFrame(fr *frame) {
 		if debugStacks && !fr.i.stackPrinted {
 			if _, isTarget := p.(targetPanic); !isTarget {
 				fr.i.stackPrinted = true
-				fmt.Fprintf(os.Stderr, "VM PANIC %T %v\n", p, p)
+				fmt.Fprintf(os.Stderr, "VM PANIC %T %v\n%s\n", p, p, debug.Stack())
 				for f := fr; f != nil; f = f.caller {
 					fmt.Fprintf(os.Stderr, "   in %s\n", f.fn)
 				}
